@@ -55,3 +55,23 @@ def map_tus(modname, funcname, tus, repo=REPO, extra=(), jobs=None):
     if errs:
         raise AnalysisError("; ".join(errs)[:4000])
     return out
+
+
+def nfunc(u, name, propagate=False, depth=4, pred=None, exclude=()):
+    """Function `name` of unit u with same-TU static helpers inlined (and optionally locals propagated); None if absent.
+    Rules that describe the behaviour of an entry point use this view so that extracting or merging static helper
+    functions does not change what they see."""
+    from . import norm
+    fn = u.funcs.get(name)
+    if fn is None:
+        return None
+    cache = u.__dict__.setdefault("_nfunc", {})
+    key = (name, propagate, depth, tuple(sorted(exclude)), id(pred))
+    if key not in cache:
+        inl = norm.Inliner(u, depth=depth, pred=pred, exclude=exclude)
+        f2 = inl.expand(fn)
+        if propagate:
+            f2 = norm.propagate_locals(f2)
+        f2["inlined"] = sorted({h for _c, h, _l in inl.inlined})
+        cache[key] = f2
+    return cache[key]
